@@ -2,6 +2,7 @@
    depend on the insertion/iteration order of the map arguments (Channel.Metadata,
    Metadata.Metadata).  Determinism is by construction (W is a Gallina function); the content
    is the independence from map order.  Proofs: theories/WriterFactsA.v. *)
+From Mcap Require ConstsTie LayoutTie. (* regenerated ties to /repo's source that this property's model relies on *)
 From Coq Require Import List NArith ZArith Bool Permutation.
 From Coq.Strings Require Import Byte.
 From Mcap Require Import Bytes GoSem Records Writer WriterFactsA.
